@@ -19,6 +19,9 @@ partial def tyOfMich : Mich → Option Ty
   | .prim "bytes" [] _ => some .bytes
   | .prim "address" [] _ => some .address
   | .prim "chain_id" [] _ => some .chainId
+  | .prim "never" [] _ => some .never
+  | .prim "key_hash" [] _ => some .keyHash
+  | .prim "key" [] _ => some .key
   | .prim "option" [a] _ => (tyOfMich a).map .option
   | .prim "list" [a] _ => (tyOfMich a).map .list
   | .prim "or" [a, b] _ => do pure (.or (← tyOfMich a) (← tyOfMich b))
@@ -40,6 +43,9 @@ partial def tyToMich : Ty → Mich
   | .bytes => .prim "bytes" [] []
   | .address => .prim "address" [] []
   | .chainId => .prim "chain_id" [] []
+  | .never => .prim "never" [] []
+  | .keyHash => .prim "key_hash" [] []
+  | .key => .prim "key" [] []
   | .option a => .prim "option" [tyToMich a] []
   | .list a => .prim "list" [tyToMich a] []
   | .or a b => .prim "or" [tyToMich a, tyToMich b] []
@@ -65,6 +71,8 @@ mutual
     | .bytes, .bytes b => some (.bytes b)
     | .address, .str s => some (.atom .address (codes s))
     | .chainId, .str s => some (.atom .chainId (codes s))
+    | .keyHash, .str s => some (.atom .keyHash (codes s))
+    | .key, .str s => some (.atom .key (codes s))
     | .option _, .prim "None" [] _ => none   -- needs the type: handled below
     | .option t, .prim "Some" [x] _ => (valOfMich t x).map .some
     | .or l r, .prim "Left" [x] _ => (valOfMich l x).map fun v => .left v r
@@ -181,6 +189,11 @@ mutual
     | .prim "SHA3" [] _ => some .SHA3
     | .prim "CAST" [t] _ => (tyOfMich t).map .CAST
     | .prim "RENAME" [] _ => some .RENAME
+    | .prim "NEVER" [] _ => some .NEVER
+    | .prim "NAT" [] _ => some .NAT
+    | .prim "BYTES" [] _ => some .BYTES
+    | .prim "VOTING_POWER" [] _ => some .VOTING_POWER
+    | .prim "HASH_KEY" [] _ => some .HASH_KEY
     | _ => none
 end
 
@@ -245,6 +258,8 @@ mutual
     | .BLAKE2B => .prim "BLAKE2B" [] [] | .SHA256 => .prim "SHA256" [] [] | .SHA512 => .prim "SHA512" [] []
     | .KECCAK => .prim "KECCAK" [] [] | .SHA3 => .prim "SHA3" [] []
     | .CAST t => .prim "CAST" [tyToMich t] [] | .RENAME => .prim "RENAME" [] []
+    | .NEVER => .prim "NEVER" [] [] | .NAT => .prim "NAT" [] [] | .BYTES => .prim "BYTES" [] []
+    | .VOTING_POWER => .prim "VOTING_POWER" [] [] | .HASH_KEY => .prim "HASH_KEY" [] []
 end
 
 end Driver
